@@ -31,6 +31,7 @@ type c11Scenario struct {
 	Schedule []int
 	Shared   bool     // the clients are goroutines sharing one *cache.Cache
 	MustHit  []string // "client:call" lookups that must find their content (direct oracle)
+	Restore  bool     // an id stored beforehand, re-stored with the same content while it is looked up
 }
 
 func (sc *c11Scenario) String() string {
@@ -299,6 +300,7 @@ func systematicC11() []*c11Scenario {
 						case 1:
 							sc.Pre["a:"+idHex(0)] = entryBytes(0, d, 1700000000000000111)
 							sc.Pre["d:"+outHex(d)] = d
+							sc.Restore = string(a.Data) == string(d) && b.ID == 0 && (b.Op != "put" || string(b.Data) == string(d))
 						case 2: // stored for another id: the output exists already
 							sc.Pre["a:"+idHex(2)] = entryBytes(2, d, 1700000000000000222)
 							sc.Pre["d:"+outHex(d)] = d
@@ -707,10 +709,10 @@ func (rn *c11Runner) one(sc *c11Scenario, src string) {
 	}
 	in := map[string]string{"scenario": sc.String()}
 	if impl != "" {
-		res.Violate(common.Violation{Kind: "impl-violation", Oracle: oname, Input: in, Detail: impl, Key: rn.keyPrefix() + ":" + oname + ":" + sc.String()})
+		violate(res, common.Violation{Kind: "impl-violation", Oracle: oname, Input: in, Detail: impl, Key: rn.keyPrefix() + ":" + oname + ":" + sc.String()})
 	}
 	if corr != "" {
-		res.Violate(common.Violation{Kind: "correspondence", Oracle: "schedule-replay", Input: in, Detail: corr, Key: rn.keyPrefix() + ":corr:" + sc.String()})
+		violate(res, common.Violation{Kind: "correspondence", Oracle: "schedule-replay", Input: in, Detail: corr, Key: rn.keyPrefix() + ":corr:" + sc.String()})
 	}
 }
 
@@ -780,7 +782,7 @@ func (rn *c11Runner) stress(real string, procs, routines, millis int) {
 			if i := strings.Index(d.stderr, "WARNING: DATA RACE"); i >= 0 {
 				rep := d.stderr[i:]
 				if strings.Contains(rep, "go-internal/cache.") {
-					res.Violate(common.Violation{Kind: "impl-violation", Oracle: "data-race",
+					violate(res, common.Violation{Kind: "impl-violation", Oracle: "data-race",
 						Input:  map[string]string{"stress": fmt.Sprintf("goroutines sharing one *cache.Cache, race detector, seed %d", rn.f.Seed)},
 						Detail: "the race detector reports a data race inside the cache package when goroutines share one Cache value: " + trunc(rep), Key: "c11:stress:data-race"})
 				} else {
@@ -800,7 +802,7 @@ func (rn *c11Runner) stress(real string, procs, routines, millis int) {
 					// a miss for an id only ever re-stored identically: re-check that the id had been stored before the run
 					o = "restore-invisible"
 				}
-				res.Violate(common.Violation{Kind: "impl-violation", Oracle: o,
+				violate(res, common.Violation{Kind: "impl-violation", Oracle: o,
 					Input:  map[string]string{"stress": fmt.Sprintf("%d processes x %d goroutines for %d ms on one directory, seed %d", procs, routines, millis, rn.f.Seed)},
 					Detail: v, Key: "c11:stress:" + o})
 			}
@@ -829,13 +831,13 @@ func (rn *c11Runner) stress(real string, procs, routines, millis int) {
 	}
 	for i, l := range lk.Lookups {
 		if (l.GetBytes == "NF" || l.GetFile == "NF") && (i >= 4 || total["put"] > 200) {
-			res.Violate(common.Violation{Kind: "impl-violation", Oracle: "quiescent-readable",
+			violate(res, common.Violation{Kind: "impl-violation", Oracle: "quiescent-readable",
 				Input:  map[string]string{"stress": fmt.Sprintf("%d processes x %d goroutines for %d ms, seed %d", procs, routines, millis, rn.f.Seed)},
 				Detail: fmt.Sprintf("after all writers finished stress id %d is not readable (GetBytes %s, GetFile %s)", i, trunc(l.GetBytes), l.GetFile),
 				Key:    "c11:stress:quiescent"})
 		}
 		for _, o := range l.Oracle {
-			res.Violate(common.Violation{Kind: "impl-violation", Oracle: strings.SplitN(o, ":", 2)[0], Input: map[string]string{"stress": "final lookups"}, Detail: o, Key: "c11:stress:final"})
+			violate(res, common.Violation{Kind: "impl-violation", Oracle: strings.SplitN(o, ":", 2)[0], Input: map[string]string{"stress": "final lookups"}, Detail: o, Key: "c11:stress:final"})
 		}
 	}
 }
